@@ -1,9 +1,12 @@
 package checks
 
 import (
+	"bytes"
 	"context"
 	"fmt"
 	"math"
+	"os"
+	"path/filepath"
 	"sort"
 	"time"
 
@@ -30,7 +33,7 @@ func init() {
 		Assumptions: []string{"index list order among equal keys of a non-unique index is by document address and therefore not compared across engines (C15 checks order inside each engine)", "database names containing '.' are not MongoDB-legal and not generated"},
 		Batches:     func(tier string) int { return 16 },
 		Require: func(tier string) map[string]int64 {
-			return map[string]int64{"reloads_compared": 300, "option_combinations": 100, "probes_compared": 1000, "probe_duplicates_rejected": 300, "reloaded_docs": 3000, "reloaded_indexes": 500, "boundary_values_reloaded": 500, "reloads_after_trimming_commit": 50}
+			return map[string]int64{"reloads_compared": 300, "option_combinations": 100, "probes_compared": 1000, "probe_duplicates_rejected": 300, "reloaded_docs": 3000, "reloaded_indexes": 500, "boundary_values_reloaded": 500, "reloads_after_trimming_commit": 50, "stale_temp_files": 100}
 		},
 		Run: runC06,
 	})
@@ -402,6 +405,16 @@ func runC06(c *fw.Ctx) {
 				Peek: w.peek, IndexNames: w.indexNames}
 			steps := c.N(50, 70)
 			for step := 0; step < steps; step++ {
+				if r.Chance(1, 25) {
+					// a temporary file left behind by an earlier process that died
+					// mid-write (larger than the next image): it must not leak into
+					// what is stored
+					junk := bytes.Repeat([]byte{0xAB, 0x00, 0x7F, 0x10}, 1<<16)
+					if os.WriteFile(w.file+".tmp", junk, 0644) == nil {
+						w.note("-- stale " + filepath.Base(w.file) + ".tmp (256 KiB) placed next to the file")
+						c.Count("stale_temp_files", 1)
+					}
+				}
 				if step > 5 && r.Chance(1, 15) {
 					if !c06Reload(c, w, r, witness) {
 						return
